@@ -117,6 +117,20 @@ def run(ctx: Ctx) -> None:
                     fake = ast.For(target=g.target, iter=g.iter, body=[ast.Expr(value=n.elt)], orelse=[], lineno=getattr(n, "lineno", 0), col_offset=0)
                     n1 += check_prefix_loop(ctx, auth, fake, "C14.R1", True)
     if n1 == 0:
+        # the enumeration lives in a helper (a generator of the prefixes) that the test iterates over
+        for call in [n for n in auth.own_nodes() if isinstance(n, ast.Call)]:
+            fs_, _ = prog.callees(auth, call, ctx._types)
+            for g_ in fs_:
+                if g_ is auth or not g_.module.name.startswith("dds"):
+                    continue
+                for n in g_.own_nodes():
+                    if isinstance(n, ast.For):
+                        n1 += check_prefix_loop(ctx, g_, n, "C14.R1", True)
+                    elif isinstance(n, (ast.GeneratorExp, ast.ListComp)):
+                        for g in n.generators:
+                            fake = ast.For(target=g.target, iter=g.iter, body=[ast.Expr(value=n.elt)], orelse=[], lineno=getattr(n, "lineno", 0), col_offset=0)
+                            n1 += check_prefix_loop(ctx, g_, fake, "C14.R1", True)
+    if n1 == 0:
         rep.unknown("C14.R1", auth.qname, "prefix enumeration idiom not recognised in the authorisation test", auth.loc())
     if ctx.tier == "thorough":
         for f in prog.funcs.values():
@@ -268,7 +282,7 @@ def run(ctx: Ctx) -> None:
         # handler methods are entered through the dispatch call of the holder only
         for hq, (hm, kp) in fam.handlers.items():
             for c in descents(ctx, hm):
-                for dc in fam.dispatch_calls:
+                for dc in fam.entry_calls.get(hq, fam.dispatch_calls):
                     sites.append((hm, c, dc))  # type: ignore
         for site_ in sites:
             n5 += 1
